@@ -11,6 +11,7 @@
 import IvpModel.Proofs.DenseEqs853
 import IvpModel.Proofs.ContLemmas
 import IvpModel.Proofs.SolOutDense
+import IvpModel.Proofs.BdfNumLemmas
 
 /-- C06 summary for DOPRI5 (the statement the other methods' lemmas share): with the dense block built from the
     step's own data, the interpolant is the old state at θ = 0 and the accepted state at θ = 1. -/
@@ -227,3 +228,36 @@ theorem c06_collect (L : Lits K) (hz : L.zero = 0) (gEv : K → Array K → Arra
 
 end
 end SolOutM
+
+/-! ### BDF: the interpolant and the history rescaling (`Model/BdfNum.lean`, tied by the full co-simulation X-bdfnum)
+
+  One component of `BDF::interpolate` is `interpScalar order c xi x_new h` with `c k` the k-th entry of the component's
+  dense block (`denseCont_get`: the difference column up to `order`).  `bdiff j v` are the backward differences of the
+  accepted values `v 0, v 1, …` (newest first), which is what the difference arrays hold (`update_bdiff`). -/
+namespace BdfNum
+noncomputable section
+variable {K : Type} [Field K] [LinearOrder K] [IsStrictOrderedRing K] [SqrtPow K]
+
+/-- the BDF step interpolant equals the stored state at both ends of its step: the accepted state at `x_new = xold + h`
+    and the previous accepted state at `xold`, for every order 1..5 and every `h ≠ 0` of either sign -/
+theorem c06_bdf_interp_ends (L : NLits K) (hL : LitOK L) (v : Nat → K) (xold h : K) (hh : h ≠ 0) (order : Nat)
+    (ho : 1 ≤ order) (ho5 : order ≤ 5) :
+    interpScalar L order (fun j => bdiff j v) (xold + h) (xold + h) h = v 0 ∧
+    interpScalar L order (fun j => bdiff j v) xold (xold + h) h = v 1 := by
+  constructor
+  · have := interp_nodes L hL v (xold + h) h hh order 0 ho ho5 (Nat.zero_le _)
+    simpa using this
+  · have := interp_nodes L hL v (xold + h) h hh order 1 ho ho5 ho
+    have e : xold + h - ((1 : Nat) : K) * h = xold := by push_cast; ring
+    rw [e] at this; exact this
+
+/-- BDF history rescaling preserves the interpolating polynomial (orders 1..5, every factor ≠ 0, every point) and leaves
+    `D[0]`, the current state, alone -/
+theorem c06_bdf_change_d (L : NLits K) (hL : LitOK L) (dcol : Nat → K) (f h xi xNew : K) (hf : f ≠ 0) (hh : h ≠ 0) (order : Nat)
+    (ho : 1 ≤ order) (ho5 : order ≤ 5) :
+    interpScalar L order (changedEntry L order f dcol) xi xNew (f * h) = interpScalar L order dcol xi xNew h ∧
+    changedEntry L order f dcol 0 = dcol 0 :=
+  ⟨changeD_poly L hL dcol f h xi xNew hf hh order ho ho5, changeD_keeps_d0 L hL dcol f order ho ho5⟩
+
+end
+end BdfNum
